@@ -1,6 +1,586 @@
-//! placeholder, replaced by the symbolic stack machine
-use serde_json::Value as J;
-use laythe_vm::verif::PeepholeRecord;
-pub fn check_records(_recs: &[PeepholeRecord]) -> J { J::Null }
-pub fn windows_cmd(_c: &J) -> J { J::Null }
-pub fn windows_main(_a: &[String]) -> i32 { 0 }
+//! Symbolic stack machine for C12: decides whether two SymbolicByteCode
+//! sequences are equivalent by executing both over a hash-consed term algebra
+//! (distinct symbols for the initial stack slots and variable contents) and
+//! comparing, segment by segment (entry and every label), the emitted events
+//! (stores, calls, effects, control transfers with their stack snapshots) and the
+//! final stacks. Deciding is syntactic comparison after deterministic abstract
+//! execution; no solver is involved.
+
+use laythe_vm::verif::{self, Label, PeepholeRecord, SymbolicByteCode as S};
+use serde_json::{json, Value as J};
+use std::collections::HashMap;
+
+type T = u32;
+
+#[derive(Default)]
+struct Arena {
+  map: HashMap<(u32, Vec<u32>), T>,
+}
+
+impl Arena {
+  fn mk(&mut self, tag: u32, args: Vec<u32>) -> T {
+    let n = self.map.len() as u32;
+    *self.map.entry((tag, args)).or_insert(n)
+  }
+}
+
+// term / event tags
+const IN: u32 = 1; // initial stack slot k (counted from the top)
+const VAR: u32 = 2; // initial content of variable (space, slot, version)
+const CONST: u32 = 3; // literal (code, operand)
+const RES: u32 = 4; // result j of event e
+const EV: u32 = 100; // generic effectful op: EV + opcode code
+
+#[derive(Clone, PartialEq, Eq, Debug)]
+struct Event {
+  tag: u32,
+  args: Vec<u32>,
+}
+
+#[derive(Default)]
+struct Seg {
+  label: Option<u32>,
+  events: Vec<Event>,
+  /// None when the segment ends in an unconditional transfer
+  end_stack: Option<Vec<T>>,
+  underflow: u32,
+}
+
+struct Exec<'a> {
+  ar: &'a mut Arena,
+  stack: Vec<T>,
+  inputs: u32,
+  events: Vec<Event>,
+  vars: HashMap<(u32, u32), T>,
+  version: u32,
+  dead: bool,
+}
+
+impl<'a> Exec<'a> {
+  fn new(ar: &'a mut Arena) -> Self {
+    Exec { ar, stack: vec![], inputs: 0, events: vec![], vars: HashMap::new(), version: 0, dead: false }
+  }
+
+  fn pop(&mut self) -> T {
+    match self.stack.pop() {
+      Some(t) => t,
+      None => {
+        let t = self.ar.mk(IN, vec![self.inputs]);
+        self.inputs += 1;
+        t
+      },
+    }
+  }
+
+  fn peek(&mut self, depth: usize) -> T {
+    while self.stack.len() <= depth {
+      let t = self.ar.mk(IN, vec![self.inputs]);
+      self.inputs += 1;
+      self.stack.insert(0, t);
+    }
+    self.stack[self.stack.len() - 1 - depth]
+  }
+
+  fn push(&mut self, t: T) {
+    self.stack.push(t);
+  }
+
+  fn load(&mut self, space: u32, slot: u32) -> T {
+    if let Some(t) = self.vars.get(&(space, slot)) {
+      return *t;
+    }
+    // spaces other than plain locals can be changed by calls: versioned
+    let ver = if space == 0 { 0 } else { self.version };
+    let t = self.ar.mk(VAR, vec![space, slot, ver]);
+    self.vars.insert((space, slot), t);
+    t
+  }
+
+  fn store(&mut self, space: u32, slot: u32) {
+    let t = self.peek(0);
+    self.events.push(Event { tag: 10 + space, args: vec![slot, t] });
+    self.vars.insert((space, slot), t);
+  }
+
+  /// a call (or anything that can run arbitrary code) invalidates what is known
+  /// about variables other code can reach
+  fn clobber(&mut self) {
+    self.version += 1;
+    self.vars.retain(|(space, _), _| *space == 0);
+  }
+
+  /// generic instruction: pops `pops`, emits an event, pushes `pushes` results
+  fn effect(&mut self, code: u32, operands: &[u32], pops: usize, pushes: usize, clobbers: bool) {
+    let mut args: Vec<u32> = operands.to_vec();
+    let mut popped = vec![];
+    for _ in 0..pops {
+      popped.push(self.pop());
+    }
+    popped.reverse();
+    args.extend(popped);
+    let id = self.events.len() as u32;
+    self.events.push(Event { tag: EV + code, args: args.clone() });
+    let ev_term = self.ar.mk(EV + code, { let mut a = args; a.push(id); a });
+    for j in 0..pushes {
+      let r = self.ar.mk(RES, vec![ev_term, j as u32]);
+      self.push(r);
+    }
+    if clobbers {
+      self.clobber();
+    }
+  }
+
+  fn transfer(&mut self, code: u32, label: u32) {
+    let mut args = vec![label];
+    args.push(self.inputs);
+    args.extend(self.stack.iter().copied());
+    self.events.push(Event { tag: 50 + code, args });
+  }
+
+  fn step(&mut self, i: &S) {
+    if self.dead {
+      return;
+    }
+    match *i {
+      S::Drop => { self.pop(); },
+      S::DropN(n) => { for _ in 0..n { self.pop(); } },
+      S::Dup => { let t = self.peek(0); self.push(t); },
+      S::Nil => { let t = self.ar.mk(CONST, vec![0]); self.push(t); },
+      S::True => { let t = self.ar.mk(CONST, vec![1]); self.push(t); },
+      S::False => { let t = self.ar.mk(CONST, vec![2]); self.push(t); },
+      S::Constant(c) => { let t = self.ar.mk(CONST, vec![3, c as u32]); self.push(t); },
+      S::ConstantLong(c) => { let t = self.ar.mk(CONST, vec![3, c as u32]); self.push(t); },
+      S::GetLocal(s) => { let t = self.load(0, s as u32); self.push(t); },
+      S::SetLocal(s) => self.store(0, s as u32),
+      S::GetBox(s) => { let t = self.load(1, s as u32); self.push(t); },
+      S::SetBox(s) => self.store(1, s as u32),
+      S::GetCapture(s) => { let t = self.load(2, s as u32); self.push(t); },
+      S::SetCapture(s) => self.store(2, s as u32),
+      S::GetModSym(s) => { let t = self.load(3, s as u32); self.push(t); },
+      S::SetModSym(s) => self.store(3, s as u32),
+      S::PropertySlot | S::InvokeSlot | S::ArgumentDelimiter => (),
+      S::Label(_) => unreachable!("segments are split at labels"),
+      // property get: may raise, may not run user code
+      S::GetPropByName(s) => self.effect(1, &[s as u32], 1, 1, false),
+      S::GetProp(s) => self.effect(1, &[s as u32], 1, 1, false),
+      S::SetPropByName(s) | S::SetProp(s) => self.effect(2, &[s as u32], 2, 1, false),
+      // call n: callee + n args -> result. By definition of the fused instructions:
+      // Invoke (s, n) = GetPropByName s on the receiver below the n arguments, then Call n
+      S::Call(n) => self.effect(3, &[n as u32], n as usize + 1, 1, true),
+      S::Invoke((s, n)) => {
+        let mut args = vec![];
+        for _ in 0..n { args.push(self.pop()); }
+        self.effect(1, &[s as u32], 1, 1, false);
+        while let Some(a) = args.pop() { self.push(a); }
+        self.effect(3, &[n as u32], n as usize + 1, 1, true);
+      },
+      // GetSuper s: pops [self, super class] pushes bound method; SuperInvoke (s, n) fuses it with Call n
+      S::GetSuper(s) => self.effect(4, &[s as u32], 2, 1, false),
+      S::SuperInvoke((s, n)) => {
+        // stack: self, args..., super class
+        let sup = self.pop();
+        let mut args = vec![];
+        for _ in 0..n { args.push(self.pop()); }
+        self.push(sup);
+        self.effect(4, &[s as u32], 2, 1, false);
+        while let Some(a) = args.pop() { self.push(a); }
+        self.effect(3, &[n as u32], n as usize + 1, 1, true);
+      },
+      S::Add => self.effect(5, &[0], 2, 1, false),
+      S::Subtract => self.effect(5, &[1], 2, 1, false),
+      S::Multiply => self.effect(5, &[2], 2, 1, false),
+      S::Divide => self.effect(5, &[3], 2, 1, false),
+      S::Negate => self.effect(5, &[4], 1, 1, false),
+      S::Not => self.effect(5, &[5], 1, 1, false),
+      S::Equal => self.effect(5, &[6], 2, 1, false),
+      S::NotEqual => self.effect(5, &[7], 2, 1, false),
+      S::Greater => self.effect(5, &[8], 2, 1, false),
+      S::GreaterEqual => self.effect(5, &[9], 2, 1, false),
+      S::Less => self.effect(5, &[10], 2, 1, false),
+      S::LessEqual => self.effect(5, &[11], 2, 1, false),
+      S::JumpIfFalse(l) => { let c = self.pop(); self.events.push(Event { tag: 40, args: vec![c] }); self.transfer(0, l.val()); },
+      S::And(l) => { let c = self.peek(0); self.events.push(Event { tag: 41, args: vec![c] }); self.transfer(1, l.val()); self.pop(); },
+      S::Or(l) => { let c = self.peek(0); self.events.push(Event { tag: 42, args: vec![c] }); self.transfer(2, l.val()); self.pop(); },
+      S::Jump(l) => { self.transfer(3, l.val()); self.dead = true; },
+      S::Loop(l) => { self.transfer(4, l.val()); self.dead = true; },
+      S::Return => { let v = self.pop(); self.events.push(Event { tag: 45, args: vec![v] }); self.dead = true; },
+      S::Raise => { let v = self.pop(); self.events.push(Event { tag: 46, args: vec![v] }); self.dead = true; },
+      S::List(n) => self.effect(6, &[n as u32], n as usize, 1, false),
+      S::Tuple(n) => self.effect(7, &[n as u32], n as usize, 1, false),
+      S::Map(n) => self.effect(8, &[n as u32], 2 * n as usize, 1, false),
+      S::Interpolate(n) => self.effect(9, &[n as u32], n as usize, 1, true),
+      S::PushHandler((_, l)) => { self.transfer(5, l.val()); },
+      S::PopHandler => self.effect(11, &[], 0, 0, false),
+      S::CheckHandler(l) => { let c = self.pop(); self.events.push(Event { tag: 43, args: vec![c] }); self.transfer(6, l.val()); },
+      S::GetError => self.effect(12, &[], 0, 1, false),
+      S::FinishUnwind => self.effect(13, &[], 0, 0, false),
+      S::ContinueUnwind => { self.events.push(Event { tag: 47, args: vec![] }); self.dead = true; },
+      S::Send => self.effect(14, &[], 2, 1, true),
+      S::Receive => self.effect(15, &[], 1, 1, true),
+      S::Channel => self.effect(16, &[], 0, 1, false),
+      S::BufferedChannel => self.effect(17, &[], 1, 1, false),
+      S::Launch(n) => self.effect(18, &[n as u32], n as usize + 1, 0, true),
+      S::IterNext(s) => self.effect(19, &[s as u32], 1, 1, true),
+      S::IterCurrent(s) => self.effect(20, &[s as u32], 1, 1, true),
+      S::Import(s) => self.effect(21, &[s as u32], 0, 1, true),
+      S::ImportSym((a, b)) => self.effect(22, &[a as u32, b as u32], 0, 1, true),
+      S::Export(s) => self.effect(23, &[s as u32], 1, 1, false),
+      S::LoadGlobal(s) => self.effect(24, &[s as u32], 0, 1, false),
+      S::DeclareModSym((a, b)) => { self.effect(25, &[a as u32, b as u32], 1, 1, false); self.vars.remove(&(3, b as u32)); },
+      S::Box(s) => { self.effect(26, &[s as u32], 0, 0, false); self.vars.remove(&(0, s as u32)); self.vars.remove(&(1, s as u32)); },
+      S::EmptyBox => self.effect(27, &[], 0, 1, false),
+      S::FillBox => self.effect(28, &[], 2, 1, false),
+      S::Closure(s) => self.effect(29, &[s as u32], 0, 1, false),
+      S::CaptureIndex(c) => {
+        let (k, v) = match c { verif::CaptureIndex::Local(v) => (0, v), verif::CaptureIndex::Enclosing(v) => (1, v) };
+        self.effect(30, &[k, v as u32], 0, 0, false)
+      },
+      S::Method(s) => self.effect(31, &[s as u32], 2, 1, false),
+      S::StaticMethod(s) => self.effect(32, &[s as u32], 2, 1, false),
+      S::Field(s) => self.effect(33, &[s as u32], 1, 1, false),
+      S::Class(s) => self.effect(34, &[s as u32], 0, 1, false),
+      S::Inherit => self.effect(35, &[], 2, 2, false),
+    }
+  }
+}
+
+fn run(ar: &mut Arena, code: &[S]) -> Vec<Seg> {
+  let mut segs = vec![];
+  let mut start = 0;
+  let mut label: Option<u32> = None;
+  let mut i = 0;
+  loop {
+    let at_end = i == code.len();
+    let is_label = !at_end && matches!(code[i], S::Label(_));
+    if at_end || is_label {
+      let mut ex = Exec::new(ar);
+      for ins in &code[start..i] {
+        ex.step(ins);
+      }
+      let end_stack = if ex.dead { None } else { Some(ex.stack.clone()) };
+      segs.push(Seg { label, events: ex.events, end_stack, underflow: ex.inputs });
+      if at_end {
+        break;
+      }
+      if let S::Label(l) = code[i] {
+        label = Some(l.val());
+      }
+      start = i + 1;
+    }
+    i += 1;
+  }
+  segs
+}
+
+/// None when equivalent, otherwise a description of the first difference
+pub fn equivalent(a: &[S], b: &[S]) -> Option<String> {
+  let mut ar = Arena::default();
+  let sa = run(&mut ar, a);
+  let sb = run(&mut ar, b);
+  if sa.len() != sb.len() {
+    return Some(format!("label structure differs: {} vs {} segments", sa.len(), sb.len()));
+  }
+  for (k, (x, y)) in sa.iter().zip(sb.iter()).enumerate() {
+    if x.label != y.label {
+      return Some(format!("segment {k}: label {:?} vs {:?}", x.label, y.label));
+    }
+    if x.events != y.events {
+      return Some(format!("segment {k} (label {:?}): events differ: {:?} vs {:?}", x.label, x.events, y.events));
+    }
+    match (&x.end_stack, &y.end_stack) {
+      (None, None) => (),
+      (Some(p), Some(q)) => {
+        if p != q || x.underflow != y.underflow {
+          return Some(format!("segment {k} (label {:?}): final stack differs: {:?}/{} vs {:?}/{}", x.label, p, x.underflow, q, y.underflow));
+        }
+      },
+      _ => return Some(format!("segment {k} (label {:?}): one side falls through, the other transfers control", x.label)),
+    }
+  }
+  None
+}
+
+/// structural validity of an optimised stream for the encoder
+fn well_formed(code: &[S]) -> Option<String> {
+  for (i, ins) in code.iter().enumerate() {
+    match ins {
+      S::Invoke(_) | S::SuperInvoke(_) => {
+        if !matches!(code.get(i + 1), Some(S::InvokeSlot)) {
+          return Some(format!("{ins:?} at {i} not followed by its cache slot"));
+        }
+      },
+      S::GetPropByName(_) | S::SetPropByName(_) => {
+        if !matches!(code.get(i + 1), Some(S::PropertySlot)) {
+          return Some(format!("{ins:?} at {i} not followed by its cache slot"));
+        }
+      },
+      S::InvokeSlot => {
+        if i == 0 || !matches!(code[i - 1], S::Invoke(_) | S::SuperInvoke(_)) {
+          return Some(format!("stray InvokeSlot at {i}"));
+        }
+      },
+      S::PropertySlot => {
+        if i == 0 || !matches!(code[i - 1], S::GetPropByName(_) | S::SetPropByName(_)) {
+          return Some(format!("stray PropertySlot at {i}"));
+        }
+      },
+      S::ArgumentDelimiter => return Some(format!("ArgumentDelimiter survived at {i}")),
+      _ => (),
+    }
+  }
+  None
+}
+
+/// every output instruction carries the line of the input instruction it derives from
+fn lines_ok(input: &[S], in_lines: &[u16], out: &[S], out_lines: &[u16], distinct: bool) -> Option<String> {
+  if out.len() != out_lines.len() {
+    return Some(format!("{} instructions but {} line entries", out.len(), out_lines.len()));
+  }
+  if !distinct {
+    // real streams: every output line must be a line of the input, in non decreasing input order
+    for l in out_lines {
+      if !in_lines.contains(l) {
+        return Some(format!("line {l} does not occur in the input"));
+      }
+    }
+    return None;
+  }
+  let mut last = 0usize;
+  for (k, (ins, l)) in out.iter().zip(out_lines.iter()).enumerate() {
+    let l = *l as usize;
+    if l >= input.len() {
+      return Some(format!("output {k}: line {l} out of range"));
+    }
+    if l < last {
+      return Some(format!("output {k}: lines go backwards ({l} after {last})"));
+    }
+    last = l;
+    let src = &input[l];
+    let ok = src == ins
+      || matches!((ins, src), (S::DropN(_), S::Drop) | (S::Drop, S::Drop))
+      || matches!((ins, src), (S::Invoke(_), S::GetPropByName(_)) | (S::InvokeSlot, S::GetPropByName(_)))
+      || matches!((ins, src), (S::SuperInvoke(_), S::GetSuper(_)) | (S::InvokeSlot, S::GetSuper(_)))
+      || matches!((ins, src), (S::Dup, S::GetLocal(_)) | (S::Dup, S::GetBox(_)) | (S::Dup, S::GetCapture(_)) | (S::Dup, S::GetModSym(_)));
+    if !ok {
+      return Some(format!("output {k} ({ins:?}) carries the line of input {l} ({src:?})"));
+    }
+  }
+  None
+}
+
+/// compiler invariants the optimiser may rely on
+fn input_invariants(code: &[S]) -> Option<String> {
+  // a function has at most 255 locals, so at most 255 values are dropped in a row
+  let mut run = 0;
+  for ins in code {
+    if matches!(ins, S::Drop) {
+      run += 1;
+      if run > 255 {
+        return Some("more than 255 consecutive Drop".to_string());
+      }
+    } else {
+      run = 0;
+    }
+  }
+  for (i, ins) in code.iter().enumerate() {
+    match ins {
+      S::Call(n) if *n > 0 => {
+        if i == 0 || !matches!(code[i - 1], S::ArgumentDelimiter) {
+          return Some(format!("Call {n} at {i} is not preceded by ArgumentDelimiter"));
+        }
+      },
+      S::GetPropByName(_) | S::SetPropByName(_) => {
+        if !matches!(code.get(i + 1), Some(S::PropertySlot)) {
+          return Some(format!("{ins:?} at {i} not followed by PropertySlot"));
+        }
+      },
+      S::PropertySlot => {
+        if i == 0 || !matches!(code[i - 1], S::GetPropByName(_) | S::SetPropByName(_)) {
+          return Some(format!("stray PropertySlot at {i}"));
+        }
+      },
+      S::InvokeSlot | S::Invoke(_) | S::SuperInvoke(_) | S::DropN(_) | S::Dup => (),
+      _ => (),
+    }
+  }
+  None
+}
+
+pub fn check_one(input: &[S], in_lines: &[u16], distinct_lines: bool) -> (bool, Option<String>) {
+  let (out, out_lines) = verif::peephole(input.to_vec(), in_lines.to_vec());
+  let rewritten = out != input;
+  if let Some(e) = equivalent(input, &out) {
+    return (rewritten, Some(format!("not equivalent: {e}; output {out:?}")));
+  }
+  if let Some(e) = well_formed(&out) {
+    return (rewritten, Some(format!("malformed output: {e}; output {out:?}")));
+  }
+  if let Some(e) = lines_ok(input, in_lines, &out, &out_lines, distinct_lines) {
+    return (rewritten, Some(format!("line table: {e}; output {out:?} lines {out_lines:?}")));
+  }
+  (rewritten, None)
+}
+
+/// validate the recorded (input, output) pairs of real compilations
+pub fn check_records(recs: &[PeepholeRecord]) -> J {
+  let mut bad = vec![];
+  let mut rewritten = 0;
+  for (input, in_lines, out, out_lines) in recs {
+    if out != input {
+      rewritten += 1;
+    }
+    if let Some(e) = input_invariants(input) {
+      bad.push(format!("compiler invariant broken in a real stream: {e}"));
+      continue;
+    }
+    if let Some(e) = equivalent(input, out) {
+      bad.push(format!("not equivalent: {e}"));
+    } else if let Some(e) = well_formed(out) {
+      bad.push(format!("malformed output: {e}"));
+    } else if let Some(e) = lines_ok(input, in_lines, out, out_lines, false) {
+      bad.push(format!("line table: {e}"));
+    }
+  }
+  json!({"functions": recs.len(), "rewritten": rewritten, "bad": bad})
+}
+
+fn alphabet() -> Vec<S> {
+  let l0 = Label::new(0);
+  let l1 = Label::new(1);
+  vec![
+    S::Drop, S::GetPropByName(1), S::PropertySlot, S::Call(0), S::Call(1), S::GetSuper(1), S::ArgumentDelimiter,
+    S::SetLocal(1), S::GetLocal(1), S::SetLocal(2), S::GetLocal(2),
+    S::SetBox(1), S::GetBox(1), S::GetBox(2),
+    S::SetCapture(1), S::GetCapture(1), S::GetCapture(2),
+    S::SetModSym(1), S::GetModSym(1), S::GetModSym(2),
+    S::Jump(l0), S::Loop(l1), S::Return, S::Raise, S::JumpIfFalse(l0),
+    S::Nil, S::Add, S::Dup, S::DropN(2), S::SetPropByName(2),
+    S::Label(l0), S::Label(l1),
+    S::SetBox(2), S::SetCapture(2), S::SetModSym(2), S::GetPropByName(2), S::Call(2), S::GetSuper(2),
+  ]
+}
+
+fn window_valid(w: &[S]) -> bool {
+  let mut l0 = 0;
+  let mut l1 = 0;
+  for ins in w {
+    if let S::Label(l) = ins {
+      if l.val() == 0 { l0 += 1 } else { l1 += 1 }
+    }
+  }
+  if l0 > 1 || l1 > 1 {
+    return false;
+  }
+  input_invariants(w).is_none()
+}
+
+struct Tally {
+  windows: u64,
+  rewritten: u64,
+  skipped: u64,
+  bad: Vec<J>,
+  bad_count: u64,
+  samples: Vec<J>,
+}
+
+fn explore_len(alpha: &[S], len: usize, shard: u64, nshards: u64, t: &mut Tally) {
+  let n = alpha.len() as u64;
+  let total = n.pow(len as u32);
+  let mut idx = shard;
+  let mut w: Vec<S> = vec![S::Nil; len];
+  while idx < total {
+    let mut x = idx;
+    for k in 0..len {
+      w[len - 1 - k] = alpha[(x % n) as usize];
+      x /= n;
+    }
+    if window_valid(&w) {
+      let lines: Vec<u16> = (0..len as u16).collect();
+      let (rew, err) = check_one(&w, &lines, true);
+      t.windows += 1;
+      if rew {
+        t.rewritten += 1;
+        if t.samples.len() < 3 && idx % 9973 == shard % 9973 {
+          let (out, _) = verif::peephole(w.clone(), lines.clone());
+          t.samples.push(json!({"window": format!("{w:?}"), "optimised": format!("{out:?}")}));
+        }
+      }
+      if let Some(e) = err {
+        t.bad_count += 1;
+        if t.bad.len() < 20 {
+          t.bad.push(json!({"window": format!("{w:?}"), "why": e}));
+        }
+      }
+    } else {
+      t.skipped += 1;
+    }
+    idx += nshards;
+  }
+}
+
+fn drop_family(t: &mut Tally) {
+  for n in [2usize, 3, 4, 100, 253, 254, 255] {
+    for variant in 0..4 {
+      let mut w: Vec<S> = vec![];
+      match variant {
+        0 => { for _ in 0..n { w.push(S::Drop); } },
+        1 => { w.push(S::Nil); for _ in 0..n { w.push(S::Drop); } w.push(S::Return); },
+        2 => { for k in 0..n { if k == n / 2 { w.push(S::Label(Label::new(0))); } w.push(S::Drop); } },
+        _ => { w.push(S::SetLocal(1)); for _ in 0..n { w.push(S::Drop); } w.push(S::GetLocal(1)); },
+      }
+      let lines: Vec<u16> = (0..w.len() as u16).collect();
+      let r = std::panic::catch_unwind(|| check_one(&w, &lines, true));
+      t.windows += 1;
+      match r {
+        Ok((rew, err)) => {
+          if rew { t.rewritten += 1; }
+          if let Some(e) = err {
+            t.bad_count += 1;
+            if t.bad.len() < 20 {
+              t.bad.push(json!({"window": format!("{} consecutive drops, variant {}", n, variant), "why": e.chars().take(300).collect::<String>()}));
+            }
+          }
+        },
+        Err(_) => {
+          t.bad_count += 1;
+          if t.bad.len() < 20 {
+            t.bad.push(json!({"window": format!("{} consecutive drops, variant {}", n, variant), "why": "optimiser panicked"}));
+          }
+        },
+      }
+    }
+  }
+}
+
+pub fn windows_cmd(_c: &J) -> J {
+  J::Null
+}
+
+/// lvrun windows <max_len> <shard> <nshards> [reduced_len]
+pub fn windows_main(a: &[String]) -> i32 {
+  let max_len: usize = a.first().and_then(|s| s.parse().ok()).unwrap_or(3);
+  let shard: u64 = a.get(1).and_then(|s| s.parse().ok()).unwrap_or(0);
+  let nshards: u64 = a.get(2).and_then(|s| s.parse().ok()).unwrap_or(1);
+  let reduced_len: usize = a.get(3).and_then(|s| s.parse().ok()).unwrap_or(0);
+  std::panic::set_hook(Box::new(|_| {}));
+  let alpha = alphabet();
+  let mut t = Tally { windows: 0, rewritten: 0, skipped: 0, bad: vec![], bad_count: 0, samples: vec![] };
+  for len in 1..=max_len {
+    explore_len(&alpha, len, shard, nshards, &mut t);
+  }
+  if reduced_len > max_len {
+    // longer windows over the core alphabet (first 32 symbols)
+    for len in (max_len + 1)..=reduced_len {
+      explore_len(&alpha[..24], len, shard, nshards, &mut t);
+    }
+  }
+  if shard == 0 {
+    drop_family(&mut t);
+  }
+  println!(
+    "{}",
+    json!({"windows": t.windows, "rewritten": t.rewritten, "skipped_by_invariant": t.skipped, "bad_count": t.bad_count,
+           "bad": t.bad, "samples": t.samples, "alphabet": alpha.len()})
+  );
+  0
+}
